@@ -27,6 +27,8 @@ def register(R):
             "self._read_bio.eof", "self._read_bio.pending", "self._write_bio.eof", "self._write_bio.pending",
             "self._AsyncTLSStreamTransport__transport_send_lock.held_by_me", "self._AsyncTLSStreamTransport__transport_recv_lock.held_by_me",
             "self._AsyncTLSStreamTransport__incoming_reader.buffer.data"]
+    REL = [("locks-released", "not self.__transport_send_lock.held_by_me and not self.__transport_recv_lock.held_by_me", "C12"),
+           ("lock-accounting-restored", "ghost.locks_held == old(ghost.locks_held)", "C12")]
     R.contract(
         "AsyncTLSStreamTransport._retry_ssl_method",
         params={"ssl_object_method": "fn:stubs.async_backend:ssl_method", "args": "tuple[]"},
@@ -35,14 +37,16 @@ def register(R):
                            "ghost.tls_ops_returned == old(ghost.tls_ops_returned)",
                            "self._read_bio.eof == old(self._read_bio.eof) or ghost.EOF", "self._write_bio.eof == old(self._write_bio.eof)"]}},
         ensures=[("operation-returned", "ghost.tls_cause == 0", "C09"), ("locks-released", "not self.__transport_send_lock.held_by_me and not self.__transport_recv_lock.held_by_me", "C12"),
+                 ("lock-accounting-restored", "ghost.locks_held == old(ghost.locks_held)", "C12"),
                  ("ciphertext-the-completed-operation-produced (application data, the close notification of unwrap()) has been handed to the transport "
                   "when its result is returned - also while the transport is closing",
                   "self._write_bio.pending == 0", "C09 C04")],
         raises={
-            "ssl.SSLZeroReturnError": [("only-after-the-peers-close-notify", "ghost.tls_cause == 1", "C09")],
-            "ssl.SSLEOFError": [("transport-ended-without-close-notify", "ghost.tls_cause == 2", "C09")],
-            "ssl.SSLError": [("other-tls-failure", "ghost.tls_cause == 3 or ghost.tls_cause == 4", "C09")],
+            "ssl.SSLZeroReturnError": [("only-after-the-peers-close-notify", "ghost.tls_cause == 1", "C09")] + REL,
+            "ssl.SSLEOFError": [("transport-ended-without-close-notify", "ghost.tls_cause == 2", "C09")] + REL,
+            "ssl.SSLError": [("other-tls-failure", "ghost.tls_cause == 3 or ghost.tls_cause == 4", "C09")] + REL,
             "BaseException": [("locks-released", "not self.__transport_send_lock.held_by_me and not self.__transport_recv_lock.held_by_me", "C12"),
+                              ("lock-accounting-restored", "ghost.locks_held == old(ghost.locks_held)", "C12"),
                               ("the-result-of-a-completed-operation-is-never-discarded: a failed or cancelled call has not taken anything out of the SSL object",
                                "ghost.tls_ops_returned == old(ghost.tls_ops_returned)", "C10"),
                               ("a-cancelled-or-timed-out-operation-leaves-the-TLS-stream-usable: the BIOs are marked at end-of-file only when the transport ended or the transport / TLS failed",
